@@ -95,7 +95,8 @@ def run(ck):
                   failed.get((lab, g, nid)))
 
     # every rejecting exit lowers the reputation and follows no key/session effect
-    rej = [i for i in ph.walk() if ph.nodes[i]['k'] == 'ReturnStmt' and const_value(ph, ph.kids(i)[0]) == 0]
+    # (a return whose value is not the literal `true` may reject: it is held to the same obligations)
+    rej = [i for i in ph.walk() if ph.nodes[i]['k'] == 'ReturnStmt' and const_value(ph, ph.kids(i)[0]) in (0, None)]
     ck.floor('C20.reject', 'rejecting exits of perform_handshake', len(rej), 2)
 
     def is_fail(n):
@@ -185,3 +186,23 @@ def run(ck):
         for g, _ in gates:
             ck.ob('C20.session', 'C20.session/%s#%d/%s' % (lab, cnt[lab], g), (lab, g, nid) not in failed, hp.loc(nid),
                   '%s only past %s' % (lab, g), failed.get((lab, g, nid)))
+    # a refused (or not yet accepted) handshake touches no session state at all: every access to the session / key tables,
+    # every write to a Session record and every call of a SessionManager routine other than the read-only helpers lies past
+    # the acceptance — so the sessions and keys already registered for the claimed peer stay as they are
+    from sa.flow import field_accesses as _fa20
+    READ_ONLY = ('endpoint_string', 'peer_key_string', 'read_handshake_payload')
+    touch = []
+    for i, m_, w_ in _fa20(hp):
+        if m_ in (SM + 'sessions_', SM + 'keys_') or (w_ and m_.startswith(SM + 'Session::')):
+            touch.append((m_.replace(SM, '') + (' write' if w_ else ' read'), i))
+    for i in hp.walk():
+        c_ = hp.nodes[i].get('callee') or ''
+        if (c_.startswith(SM) or c_.startswith('ephemeralnet::network::(anonymous namespace)::')) and c_.split('::')[-1] not in READ_ONLY \
+                and hp.nodes[i]['k'] in ('CallExpr', 'CXXMemberCallExpr'):
+            touch.append((c_.split('::')[-1] + '()', i))
+    ck.floor('C20.session', 'session-state accesses in handle_pending_handshake', len(touch), 8)
+    fails, _ = gate_check(hp, touch, [gates[1]])
+    bad20 = sorted({(lab, nid) for lab, _g, nid, _p, _c in fails}, key=lambda x: x[1])
+    ck.ob('C20.session', 'C20.session/untouched-unless-accepted', not bad20, hp.loc(bad20[0][1]) if bad20 else hp.loc(),
+          'handle_pending_handshake reads or writes session state (%d sites) only past acceptance->accepted%s'
+          % (len(touch), '' if not bad20 else ' — reached without it: ' + ', '.join(l for l, _n in bad20[:4])), fails[0][3] if fails else None)
